@@ -418,8 +418,14 @@ func (ru *run) body(t txSpec, forward bool) *types.Transaction {
 			pto = keyAddr[kBlockedTo]
 			tx.To = pto
 		}
+		// the secp256k1eth verifier reads a non-empty Note of a coins transfer as the original eth transaction:
+		// an eth-signed transfer carries no padding
+		var note []byte
+		if t.Sender != kEth0 && t.Sender != kEth1 {
+			note = make([]byte, t.Pad)
+		}
 		act := &cty.CoinsAction{Ty: cty.CoinsActionTransfer, Value: &cty.CoinsAction_Transfer{
-			Transfer: &types.AssetsTransfer{Amount: int64(t.Uniq), To: pto, Note: make([]byte, t.Pad)}}}
+			Transfer: &types.AssetsTransfer{Amount: int64(t.Uniq), To: pto, Note: note}}}
 		tx.Payload = types.Encode(act)
 	default:
 		tx.To = keyAddr[int(t.Uniq%3)]
